@@ -283,7 +283,8 @@ def rule_b(ctx, out):
             out.ok({"shortcut": "load/store", "note": "compares the load's functor with the stored value: never equal, shortcut is dead"})
             continue
         # store/store with equal values: sound for storage (same value under any aliasing), unsound for memory unless same address
-        guarded_by_location = any("location == 'storage'" in norm(a.test) or 'location == "storage"' in norm(a.test) for a in _ancestors_if(n, f.node))
+        from ..core.flow import established_by_enclosing_ifs, compare_atom
+        guarded_by_location = any(established_by_enclosing_ifs(n, f.node, compare_atom(prm, "storage")) for prm in f.params)
         if guarded_by_location:
             out.ok({"shortcut": "store/store equal values", "restricted_to": "storage"})
         else:
